@@ -24,5 +24,6 @@ Extraction "model.ml" peval_q geval_q lp_get_q lp_norm2_q lp_degree_q lp_parity_
   check_c07 c07_norm check_roundtrip
   check_resp_val resp_dists
   check_completion unit_residual
-  check_pcompletion corner_norm_q check_c02 corner_norm_i.
+  check_pcompletion corner_norm_q check_c02 corner_norm_i
+  p2l_q c2p_q p2c_q ptlf_q check_p2l check_p2c lp_same.
 Cd "..".
